@@ -27,6 +27,7 @@ type Server struct {
 	loader                *include.Loader
 	resolved              sync.Map
 	cliClient             *cli.Client
+	cliMu                 sync.RWMutex // guards cliClient (replaced by configuration refreshes)
 	rootURI               string
 	workspace             *workspace.Workspace
 	settings              serverSettings
@@ -56,7 +57,16 @@ func NewServer() *Server {
 }
 
 func (s *Server) reinitCLI(cfg cliSettings) {
-	s.cliClient = cli.NewClient(cfg.Path, cfg.Timeout)
+	client := cli.NewClient(cfg.Path, cfg.Timeout)
+	s.cliMu.Lock()
+	s.cliClient = client
+	s.cliMu.Unlock()
+}
+
+func (s *Server) getCLIClient() *cli.Client {
+	s.cliMu.RLock()
+	defer s.cliMu.RUnlock()
+	return s.cliClient
 }
 
 func (s *Server) SetClient(client protocol.Client) {
